@@ -541,11 +541,27 @@ func abandonOnlyWhenNoKeys(c *eng.Ctx) {
 // that contains it.  Leaving the loop (break / return) before s is not judged here.
 func everyIterationPasses(c *eng.Ctx, fn *ssa.Function, s eng.Site, sub, want string) {
 	// innermost loop header containing s: a block h that dominates s's block, has a back edge, and from which s is in the body
-	sb := s.Instr.Block()
 	if s.Instr.Parent() != fn {
-		c.Check(false, sub, s.Instr, fn, want, "the site is not written in the loop's function body (unrecognised shape)")
-		return
+		// the site lies in a helper the loop body enters transparently: the call that enters it stands for the site
+		// (inside the helper the site must then be passed on every path to a normal return)
+		top := eng.TopOf(fn, s)
+		g := s.Instr.Parent()
+		if top == nil || g == nil {
+			c.Check(false, sub, s.Instr, fn, want, "the site is not written in the loop's function body (unrecognised shape)")
+			return
+		}
+		if _, bypass := eng.PathExists(eng.PathQuery{Fn: g,
+			Target: func(in ssa.Instruction) bool {
+				r, ok := in.(*ssa.Return)
+				return ok && in.Parent() == g && instrIsSuccessReturn(g, r)
+			},
+			Blocked: func(in ssa.Instruction) bool { return in == s.Instr }}); bypass {
+			c.Check(false, sub, s.Instr, fn, want, "the helper "+c.P.FuncKey(g)+" can return normally without passing the site")
+			return
+		}
+		s = eng.Site{Fn: fn, Instr: top}
 	}
+	sb := s.Instr.Block()
 	header := innermostLoop(fn, sb)
 	if header == nil {
 		c.Check(false, sub, s.Instr, fn, want, "the site is not inside a loop")
